@@ -10,7 +10,8 @@
     boundaries of the file the result names: property C17). *)
 From Coq Require Import List Bool Arith NArith.
 From TG.Model Require Import Chars LineIndex ServerProto.
-From TG.Proofs Require Import ServerProofs.
+From TG.Gen Require Import GenServerConv GenLineIndex.
+From TG.Proofs Require Import ServerProofs ServerSource.
 Import ListNotations.
 Open Scope N_scope.
 
@@ -86,6 +87,39 @@ Check C09_diagnostics : forall (content : file -> text) (M : Type) (dm : list (f
   h_diagnostics content dm =
     Ok (map (fun e => (fst e, map (fun d => (spec_range content (fst e) (fst d), snd d)) (snd e))) dm).
 Print Assumptions C09_diagnostics.
+
+(** The plumbing model the theorems above speak about IS the data flow of the current sources: gen/GenServerConv.v is
+    regenerated on every run by tools/translate/t_serverconv.py from crates/lsp/src/server.rs, to_proto.rs and
+    from_proto.rs - for every handler which file's LineIndex converts each location (the requesting document's, or
+    `snap.analysis.line_index(<value>.file)` of the very value converted, or the key of the publish loop), which file the
+    URI is made from, which to_proto wrapper is applied (scalar / element-wise), and for every wrapper which primitive
+    is applied to which field with the LineIndex parameter - and equals the model's h_* functions; the primitives
+    to_proto::{range, position, folding_range} are rendered from the source by t_lineindex.py (gen/GenLineIndex.v) and
+    equal the model's (group "lines"). *)
+Theorem C09_plumbing_is_source : forall (content : file -> text),
+  (forall reqf r, gen_h_definition content reqf r = h_definition content reqf r) /\
+  (forall reqf r, gen_h_references content reqf r = h_references content reqf r) /\
+  (forall reqf r, gen_h_document_symbol content reqf r = h_document_symbol content reqf r) /\
+  (forall reqf r, gen_h_folding_range content reqf r = h_folding_range content reqf r) /\
+  (forall reqf r, gen_h_inlay_hint content reqf r = h_inlay_hint content reqf r) /\
+  (forall reqf r, gen_h_document_link content reqf r = h_document_link content reqf r) /\
+  (forall (M : Type) (dm : list (file * list (rng * M))), gen_h_diagnostics content dm = h_diagnostics content dm) /\
+  (forall li r, src_to_proto_range li r = to_proto_range li r) /\
+  (forall li o, src_to_proto_position li o = to_proto_position li o) /\
+  (forall li r, src_to_proto_folding_range li r = to_proto_folding_range li r).
+Proof. exact plumbing_is_source. Qed.
+Check C09_plumbing_is_source : forall (content : file -> text),
+  (forall reqf r, gen_h_definition content reqf r = h_definition content reqf r) /\
+  (forall reqf r, gen_h_references content reqf r = h_references content reqf r) /\
+  (forall reqf r, gen_h_document_symbol content reqf r = h_document_symbol content reqf r) /\
+  (forall reqf r, gen_h_folding_range content reqf r = h_folding_range content reqf r) /\
+  (forall reqf r, gen_h_inlay_hint content reqf r = h_inlay_hint content reqf r) /\
+  (forall reqf r, gen_h_document_link content reqf r = h_document_link content reqf r) /\
+  (forall (M : Type) (dm : list (file * list (rng * M))), gen_h_diagnostics content dm = h_diagnostics content dm) /\
+  (forall li r, src_to_proto_range li r = to_proto_range li r) /\
+  (forall li o, src_to_proto_position li o = to_proto_position li o) /\
+  (forall li r, src_to_proto_folding_range li r = to_proto_folding_range li r).
+Print Assumptions C09_plumbing_is_source.
 
 (** Non-vacuity (and the defect repaired by 5c4888d, D6): on the workspace root = include "sub.td"\nclass Foo : Bar;
     sub.td = \n\nclass Bar; the hypotheses hold for the definition of Bar (bytes 8..11 of sub.td); the repaired handler
